@@ -12,7 +12,7 @@
     [inc_end m g n] / [hh_end g n] = n lies on an included / on an H-H bond, [charge_changed a] = the two charges in typesGH differ.
     Theorems 13-17: the RadiusExpand helpers. *)
 From Coq Require Import List NArith ZArith Bool.
-From SK Require Import lib.LGraph lib.C01_GraphLemmas model.C01_Model model.C01_Opts model.C02_Model model.C02_Store model.C02_Api proof.C02_Store proof.C02_StoreCtx proof.C02_StoreEquiv proof.C02_StoreNest proof.C02_Api model.C02_Compare proof.C02_Compare proof.C02_Proof proof.C02_Opts proof.C02_OptsEquiv proof.C02_Ctx proof.C02_Lre proof.C02_LreTrace proof.C02_Sides proof.C02_Sides2 proof.C02_CtxEquiv proof.C02_CtxCentre proof.C02_CtxNest model.C01_String proof.C01_StringEH proof.C02_ExplicitH.
+From SK Require Import lib.LGraph lib.C01_GraphLemmas model.C01_Model model.C01_Opts model.C02_Model model.C02_Store model.C02_Api proof.C02_Store proof.C02_StoreCtx proof.C02_StoreEquiv proof.C02_StoreNest proof.C02_StoreCtx2 proof.C02_Api model.C02_Compare proof.C02_Compare proof.C02_Proof proof.C02_Opts proof.C02_OptsEquiv proof.C02_Ctx proof.C02_Lre proof.C02_LreTrace proof.C02_Sides proof.C02_Sides2 proof.C02_CtxEquiv proof.C02_LreEquiv proof.C02_CtxCentre proof.C02_CtxNest model.C01_String proof.C01_StringEH proof.C02_ExplicitH.
 (* [extract_k_S] in section 28 is the definition of model/C02_Store.v (proof/C02_Proof.v has a lemma of that name) *)
 From SK Require Import model.C02_Store.
 Import ListNotations.
@@ -688,3 +688,111 @@ Theorem C02_rcS_scalar : forall K d m (g : xits), wf g ->
   get_rc_S K d m (gmapn sn_of_x g) = gmapn sn_of_x (get_rc_x K d m g).
 Proof. exact rcS_scalar. Qed.
 Print Assumptions C02_rcS_scalar.
+
+(** 39. longest_radius_extension commutes with every injective renumbering (a renumbering keeps the edge-list / adjacency order, on
+        which the choice among equally long paths depends), hence extract_k(its, n_knn) does for EVERY option value — theorem 24 extended
+        to n_knn = -1 and n_knn < -1. *)
+Theorem C02_lre_equivariant : forall f : N -> N, (forall a b, f a = f b -> a = b) -> forall (g : its) (rcn : list N),
+  lre (relabel f g) (map f rcn) = map f (lre g rcn).
+Proof. exact lre_relabel. Qed.
+Print Assumptions C02_lre_equivariant.
+
+Theorem C02_extract_k_z_equivariant : forall f : N -> N, (forall a b, f a = f b -> a = b) -> forall (g : its) (k : Z),
+  extract_k_z (relabel f g) k = relabel f (extract_k_z g k).
+Proof. exact extract_k_z_equivariant. Qed.
+Print Assumptions C02_extract_k_z_equivariant.
+
+(** 40. (a) extract_k on pair-/absent-label graphs commutes with renumbering for every option value (n_knn = -1 through the skeleton);
+        (b) the way the ITS stores its labels does not change the contexts: for k >= 1 the flattened radius-k context of a store=True
+        ITS is the radius-k context of its store=False twin (elements equal on both sides); end to end on ITSConstruction. *)
+Theorem C02_ctxS_z_equivariant : forall f : N -> N, (forall a b, f a = f b -> a = b) -> forall (g : sits) (k : Z), wf g ->
+  extract_k_S_z (relabel f g) k = relabel f (extract_k_S_z g k).
+Proof. exact ctxS_z_equivariant. Qed.
+Print Assumptions C02_ctxS_z_equivariant.
+
+Theorem C02_ctxS_twin : forall (g : itsS) (k : nat),
+  (forall n a, In (n, a) (gnodes g) -> fst (s_el a) = snd (s_el a)) -> (1 <= k)%nat ->
+  gmapn flat (extract_k_S (emb_S g) k) = emb (extract_k (gmap twin (fun e : iedge => e) g) k).
+Proof. exact ctxS_twin. Qed.
+Print Assumptions C02_ctxS_twin.
+
+Theorem C02_ctxS_construct : forall o G H (k : nat),
+  (forall n a, In (n, a) (gnodes (its_construct_S o G H)) -> fst (s_el a) = snd (s_el a)) -> (1 <= k)%nat ->
+  gmapn flat (extract_k_S (emb_S (its_construct_S o G H)) k) = emb (extract_k (its_construct_o o G H) k).
+Proof. exact ctxS_construct. Qed.
+Print Assumptions C02_ctxS_construct.
+
+(** 41. Theorems 8 and 11 for every label shape: which atoms the centre has and with which labels ([selS] / [selS_hh] of the ITS atom's
+        labels, pairs untouched), for every element_key / disconnected / keep_mtg; the default centre is within every variant. *)
+Theorem C02_rcS_nodes : forall K d m (g : sits), wf g -> forall n b,
+  label (get_rc_S K d m g) n = Some b <->
+  exists a, label g n = Some a /\
+    (((exists v x, adj g n v = Some x /\ include_x m x = true) /\ b = selS K a) \/
+     (~ (exists v x, adj g n v = Some x /\ include_x m x = true) /\
+      (exists v x, adj g n v = Some x /\ is_hh_g ish_S g n v = true) /\ b = selS_hh K a) \/
+     (~ (exists v x, adj g n v = Some x /\ include_x m x = true) /\
+      ~ (exists v x, adj g n v = Some x /\ is_hh_g ish_S g n v = true) /\ d = true /\ cc_S a = true /\ b = selS K a)).
+Proof. exact rcS_nodes. Qed.
+Print Assumptions C02_rcS_nodes.
+
+Theorem C02_rcS_default_sub : forall K d m (g : sits), wf g ->
+  (forall n, In n (node_ids (get_rc_S K false false g)) -> In n (node_ids (get_rc_S K d m g))) /\
+  (forall u v y, adj (get_rc_S K false false g) u v = Some y -> adj (get_rc_S K d m g) u v = Some y).
+Proof. exact rcS_default_sub. Qed.
+Print Assumptions C02_rcS_default_sub.
+
+(** 42. Clause 1 of the property, verbatim, on graphs of ANY label shape: when standard_order is the order difference a bond is in
+        the centre iff its two orders differ or both atoms are hydrogens ("H", or the pair ("H","H")); under the ignore_aromaticity
+        rule: iff the orders differ by at least 1 (2 half-units).  Every ITS that ITSConstruction builds with store=True satisfies
+        the hypothesis its ignore_aromaticity option names. *)
+Theorem C02_rcS_edges_std : forall g : sits, wf g ->
+  (forall u v x, In (u, v, x) (gedges g) -> e_std (fst x) = e_G (fst x) - e_H (fst x)) ->
+  forall u v y,
+  adj (get_rc_S K_default false false g) u v = Some y <->
+  exists x, adj g u v = Some x /\ (e_G (fst x) <> e_H (fst x) \/ is_hh_g ish_S g u v = true) /\ y = out_edge x.
+Proof. exact rcS_edges_std. Qed.
+Print Assumptions C02_rcS_edges_std.
+
+Theorem C02_rcS_edges_ia : forall g : sits, wf g ->
+  (forall u v x, In (u, v, x) (gedges g) ->
+     e_std (fst x) = if Z.abs (e_G (fst x) - e_H (fst x)) <? 2 then 0 else e_G (fst x) - e_H (fst x)) ->
+  forall u v y,
+  adj (get_rc_S K_default false false g) u v = Some y <->
+  exists x, adj g u v = Some x /\ (2 <= Z.abs (e_G (fst x) - e_H (fst x)) \/ is_hh_g ish_S g u v = true) /\ y = out_edge x.
+Proof. exact rcS_edges_ia. Qed.
+Print Assumptions C02_rcS_edges_ia.
+
+Theorem C02_construct_S_consistent : forall o G H,
+  (o_ia o = false -> forall u v x, In (u, v, x) (gedges (emb_S (its_construct_S o G H))) -> e_std (fst x) = e_G (fst x) - e_H (fst x)) /\
+  (o_ia o = true -> forall u v x, In (u, v, x) (gedges (emb_S (its_construct_S o G H))) ->
+     e_std (fst x) = if Z.abs (e_G (fst x) - e_H (fst x)) <? 2 then 0 else e_G (fst x) - e_H (fst x)).
+Proof. exact construct_S_consistent. Qed.
+Print Assumptions C02_construct_S_consistent.
+
+(** 43. The renumbering clause at the level of the REACTION (the pair of molecule graphs): renumbering the atoms of both sides by an
+        injective f renumbers the centre and every context (every n_knn) of the ITS that ITSConstruction builds, for every option value,
+        with scalar (store=False) and with pair (store=True) labels.  (C01_equivariant_opts composed with theorems 4, 39, 31.) *)
+Theorem C02_reaction_renumbering : forall f : N -> N, (forall a b, f a = f b -> a = b) -> forall (o : copts) (G H : mgraph),
+  get_rc (its_construct_o o (relabel f G) (relabel f H)) = relabel f (get_rc (its_construct_o o G H)) /\
+  (forall k : Z, extract_k_z (its_construct_o o (relabel f G) (relabel f H)) k = relabel f (extract_k_z (its_construct_o o G H) k)) /\
+  (forall K d m, wf G -> wf H ->
+     get_rc_S K d m (emb_S (its_construct_S o (relabel f G) (relabel f H))) = relabel f (get_rc_S K d m (emb_S (its_construct_S o G H)))).
+Proof. exact reaction_renumbering. Qed.
+Print Assumptions C02_reaction_renumbering.
+
+(** 44. get_rc commutes with every map of label VALUES that commutes with the attribute selection and keeps "is a hydrogen" and
+        "charge changes" (lock-step simulation of the generic get_rc_g, of which get_rc_x is an instance); instance: renumbering the
+        atom_map LABELS — with theorem 18: renumbering node ids and atom_map labels together renumbers the centre (what renumbering
+        the atom maps of a reaction does to its ITS). *)
+Theorem C02_rcx_label_map : forall (h : xnode -> xnode) K d m (g : xits),
+  (forall a, h (sel_attr K a) = sel_attr K (h a)) -> (forall a, h (sel_attr_hh K a) = sel_attr_hh K (h a)) ->
+  (forall a, match x_el (h a) with Some e => N.eqb e EL_H | None => false end = match x_el a with Some e => N.eqb e EL_H | None => false end) ->
+  (forall a, charge_changed (h a) = charge_changed a) ->
+  gmapn h (get_rc_x K d m g) = get_rc_x K d m (gmapn h g).
+Proof. exact rcx_label_map. Qed.
+Print Assumptions C02_rcx_label_map.
+
+Theorem C02_rcx_full_renumbering : forall f : N -> N, (forall a b, f a = f b -> a = b) -> forall (fz : Z -> Z) K d m (g : xits),
+  get_rc_x K d m (relabel f (gmapn (map_amap fz) g)) = relabel f (gmapn (map_amap fz) (get_rc_x K d m g)).
+Proof. exact rcx_full_renumbering. Qed.
+Print Assumptions C02_rcx_full_renumbering.
